@@ -37,9 +37,20 @@ impl PathSelector {
     /// resolved path. It is selected or excluded also by the patterns that match the path
     /// it has below the input path as given.
     pub fn input_paths(mut self, paths: impl IntoIterator<Item = Path>) -> PathSelector {
+        self.root_aliases = Self::root_aliases(&self.base_dir, paths);
+        self
+    }
+
+    /// Returns the input paths that lead through symbolic links:
+    /// what they resolve to, and the path as given, made absolute.
+    pub fn root_aliases(
+        base_dir: &Arc<Path>,
+        paths: impl IntoIterator<Item = Path>,
+    ) -> Vec<(String, String)> {
+        let mut root_aliases = Vec::new();
         for path in paths {
             let mut given = std::path::PathBuf::new();
-            for component in self.base_dir.resolve(path).to_path_buf().components() {
+            for component in base_dir.resolve(path).to_path_buf().components() {
                 match component {
                     std::path::Component::CurDir => {}
                     std::path::Component::ParentDir => {
@@ -51,18 +62,23 @@ impl PathSelector {
             let given = Path::from(given);
             let resolved = given.canonicalize();
             if resolved != given {
-                self.root_aliases
-                    .push((resolved.to_string_lossy(), given.to_string_lossy()));
+                root_aliases.push((resolved.to_string_lossy(), given.to_string_lossy()));
             }
         }
-        self
+        root_aliases
     }
 
     /// Returns the given path together with the other names it has below the input paths
     /// that lead through symbolic links.
     fn names_of(&self, path: String) -> Vec<String> {
+        Self::names_with_aliases(&self.root_aliases, path)
+    }
+
+    /// Returns the given path together with the other names it has below the given input
+    /// paths that lead through symbolic links.
+    pub fn names_with_aliases(root_aliases: &[(String, String)], path: String) -> Vec<String> {
         let mut names = Vec::with_capacity(1);
-        for (resolved, given) in self.root_aliases.iter() {
+        for (resolved, given) in root_aliases.iter() {
             if let Some(rest) = path.strip_prefix(resolved.as_str()) {
                 if rest.is_empty() || rest.starts_with(MAIN_SEPARATOR) {
                     names.push(format!("{given}{rest}"));
